@@ -281,6 +281,13 @@ def run_shard(shard, rec):
     if not live_ok:
         viol("width", f"{tn}: live width/signedness ({T._int_size}, {T._signed}) differ from pinned ({d['width']}, {d['signed']})", 0)
     vals, exhaustive = values_for(d, rng, shard.get("tier", "quick"), shard["part"], shard["parts"])
+    # this worker is a fresh interpreter: which value a type is asked about FIRST is a history of its own (an ascending
+    # sweep always starts at the lower limit) - the first value rotates with the seed and the type
+    lo, hi = limits(d)
+    firsts = [v for v in (-1, 0, 1, hi - 1, lo, 2) if lo <= v < hi]
+    first = firsts[(int(shard.get("seed", 0)) + sum(map(ord, tn))) % len(firsts)]
+    check_value(tn, T, d, first, rec, viol)
+    rec.count("first_value_%s" % ("minus_one" if first == -1 else "zero" if first == 0 else "other"))
     for v in vals:
         check_value(tn, T, d, v, rec, viol)
     if shard["part"] == 0:
